@@ -16,7 +16,7 @@ from __future__ import annotations
 import itertools
 
 from mc.common import Result, h64
-from mc import fp
+from mc import fp, prog
 
 from pypika_tortoise import AliasedQuery, Case, Field, Query, Table
 from pypika_tortoise import functions as FN
@@ -710,9 +710,62 @@ def run_joinzoo(case, res):
                                                                                               exp and exp.__name__, got and got.__name__), case=case)
 
 
+def joinchain_cases():
+    """chains of n = 2..5 joins: the ON criterion of the last join refers to source number `ref` of the statement (0 = FROM
+    table, i = the i-th joined item, n+1 = a table that is nowhere in the statement)"""
+    for d in fp.CTX:
+        for n in (2, 3, 4, 5):
+            for ref in range(0, n + 1):
+                for item in ("table", "aliased", "subquery"):
+                    yield {"k": "joinchain", "d": d, "n": n, "ref": ref, "item": item}
+
+
+def run_joinchain(case, res):
+    from pypika_tortoise import Table
+
+    d, n, ref, kind = case["d"], case["n"], case["ref"], case["item"]
+    Q = fp.QCLS[d]
+    res.nontrivial = 1
+
+    def mk(i):
+        if kind == "table":
+            return Table("j%d" % i)
+        if kind == "aliased":
+            return Table("same", alias="a%d" % i)
+        return Q.from_(Table("s%d" % i)).select("id", "k").as_("q%d" % i)
+
+    srcs = [Table("t0")] + [mk(i) for i in range(1, n + 1)]
+    absent = Table("nowhere") if kind != "aliased" else Table("same", alias="zz")
+    q = Q.from_(srcs[0]).select(srcs[0].id)
+    try:
+        for i in range(1, n):
+            q = q.join(srcs[i]).on(srcs[i - 1].id == srcs[i].id)
+    except Exception as e:
+        res.violate("C14|joinchain|prefix-raises|%s" % type(e).__name__, "a linear chain of valid joins was rejected", dialect=d, n=n, item=kind, error=str(e)[:200])
+        return
+    other = srcs[ref] if ref < n else absent
+    res.transitions += 1
+    try:
+        q2 = q.join(srcs[n]).on(other.k == srcs[n].id)
+        out = "ok"
+        sql = prog.render(q2, d)[0]
+    except JoinException:
+        out, sql = "JoinException", None
+    except Exception as e:
+        out, sql = type(e).__name__, str(e)[:200]
+    res.outcomes.append(h64(out))
+    if ref < n and out != "ok":
+        res.violate("C14|joinchain|false-rejection|%s" % out, "join number %d refers to source number %d of the statement, which is available, and was rejected" % (n, ref),
+                    dialect=d, n=n, ref=ref, item=kind, error=sql)
+    elif ref == n and out != "JoinException":
+        res.violate("C14|joinchain|missed-rejection", "join number %d refers to a table that is nowhere in the statement and was accepted" % n,
+                    dialect=d, n=n, item=kind, got=out, sql=sql)
+
+
 def chunks(tier, seed):
     out = [{"part": "join", "base": b, "tier": tier} for b in BASES]
     out.append({"part": "joinzoo"})
+    out.append({"part": "joinchain"})
     out += [{"part": "setop"}, {"part": "conflict", "maxlen": 3 if tier == "quick" else 4}, {"part": "misc"}]
     return out
 
@@ -725,6 +778,8 @@ def expand(chunk):
                 yield c
     elif p == "joinzoo":
         yield from joinzoo_cases()
+    elif p == "joinchain":
+        yield from joinchain_cases()
     elif p == "setop":
         yield from setop_cases()
     elif p == "conflict":
@@ -748,6 +803,8 @@ def run_case(case):
         run_returning(case, res)
     elif k == "joinzoo":
         run_joinzoo(case, res)
+    elif k == "joinchain":
+        run_joinchain(case, res)
     elif k == "rollup_seq":
         run_rollup_seq(case, res)
     else:
